@@ -107,7 +107,17 @@ def check(state, live, hole, rake_fn=None):
     pots = ref_pots(state, contrib, antes, live)
     pushes = [op for op in state.operations
               if type(op).__name__ == 'ChipsPushing']
-    nb = state.board_count
+    # number of boards, from the log: starting boards x agreed run-outs
+    prefs = [op.runout_count for op in state.operations
+             if type(op).__name__ == 'RunoutCountSelection'
+             and op.runout_count is not None]
+    runs = prefs[0] if prefs and all(c == prefs[0] for c in prefs) else 1
+    nb = state.starting_board_count * runs
+    if state.board_count != nb and sum(live) > 1:
+        v.append(f'{state.board_count} boards at the end, the log says '
+                 f'{state.starting_board_count} starting boards x {runs} '
+                 f'agreed run-outs')
+        return v, pots, facts
     rake_fn = rake_fn or state.rake
     raked = [rake_fn(a, state) for a, _ in pots]
     by_pot = {}
